@@ -10,6 +10,8 @@ import (
 	"github.com/fullstorydev/grpchan"
 	"github.com/fullstorydev/grpchan/grpchantesting"
 	"github.com/fullstorydev/grpchan/inprocgrpc"
+	"github.com/jhump/protoreflect/desc"
+	"github.com/jhump/protoreflect/dynamic"
 	"google.golang.org/grpc"
 	"google.golang.org/grpc/encoding"
 	grpcproto "google.golang.org/grpc/encoding/proto"
@@ -20,6 +22,7 @@ func suiteC06(r *Run) {
 	r.Rule = "in-process calls: (1) scripted unary calls with a recording cloner that timestamps every copy of the caller's request against the return of Invoke, with cancellation at any point, schedule-point holds and copies stalled in mid-flight, accepted by the explorer over InprocUnary.step; (2) every cloner configuration x RPC kind x direction: reflective pointer walk of the two object graphs, mutation after hand-off, pre-filled receive destinations. Non-trivial: the call was cancelled / the message has nested, map, repeated or bytes content."
 	unarySuite(r, "C06")
 	sharingSuite(r)
+	dynamicDestinations(r)
 }
 
 type cfgCloner struct {
@@ -232,6 +235,66 @@ func sharingSuite(r *Run) {
 				}
 			}
 			mu.Unlock()
+		}
+	}
+}
+
+// dynamicDestinations: a receive into a pre-filled *dynamic* message (the other representation the
+// default cloner supports) overwrites it as well.
+func dynamicDestinations(r *Run) {
+	rng := r.Rng.Fork("dyn-dest")
+	mdMsg, err := desc.LoadMessageDescriptorForMessage(&Msg{})
+	if err != nil {
+		r.Notes = append(r.Notes, "no descriptor for the test message: dynamic destinations skipped")
+		return
+	}
+	for _, cfg := range clonerConfigs() {
+		if cfg.name == "clonefunc" || cfg.name == "codec" {
+			continue // (these adapters do not support the dynamic representation: C18's known findings)
+		}
+		for iter := 0; iter < r.Budget(6, 100); iter++ {
+			want := populateMsg(rng)
+			svr := &scriptServer{}
+			svr.unary = func(ctx context.Context, req *Msg) (*Msg, error) { return want, nil }
+			svr.sstream = func(req *Msg, s grpchantesting.TestService_ServerStreamServer) error { return s.Send(want) }
+			ch := &inprocgrpc.Channel{}
+			if c := cfg.mk(); c != nil {
+				ch.WithCloner(c)
+			}
+			grpchantesting.RegisterTestServiceServer(ch, svr)
+			dst := dynamic.NewMessage(mdMsg)
+			stale := populateMsg(rng)
+			stale.Headers = map[string][]byte{"stale-key": []byte("stale")}
+			stale.Count = 424242
+			if err := dst.ConvertFrom(stale); err != nil {
+				continue
+			}
+			var callErr error
+			kind := []string{"unary", "sstream"}[iter%2]
+			if kind == "unary" {
+				callErr = ch.Invoke(context.Background(), mUnary, &Msg{}, dst)
+			} else {
+				cs, err := ch.NewStream(context.Background(), descSStream, mSStream)
+				if err != nil {
+					callErr = err
+				} else {
+					cs.SendMsg(&Msg{})
+					cs.CloseSend()
+					callErr = cs.RecvMsg(dst)
+				}
+			}
+			c := map[string]interface{}{"transport": "inproc", "cloner": cfg.name, "kind": kind, "destination": "pre-filled dynamic message"}
+			r.Eval(fmt.Sprint("dyn-dest", cfg.name, kind, iter), true)
+			r.Count("dynamic-destination:" + cfg.name)
+			if callErr != nil {
+				r.Violate("inproc/sharing/"+cfg.name+"/dynamic-destination-refused", "generated and dynamic representations can be copied into each other", callErr.Error(), c, "")
+				continue
+			}
+			got := &Msg{}
+			if err := dst.ConvertTo(got); err != nil || snapOf(got) != snapOf(want) {
+				r.Violate("inproc/sharing/"+cfg.name+"/dynamic-destination-merged", "a destination message passed to a receive is overwritten, never merged with its previous content",
+					sprintf("%s into a pre-filled dynamic message: the result differs from the response sent (convert err %v)", kind, err), c, "")
+			}
 		}
 	}
 }
